@@ -110,10 +110,16 @@ def run_world(scn, plan=None, monitor=None, pauses=None, persist='none', wn=None
         if i < len(stops) - 1:
             rec.events.append(['pause', stop, persist])
             rec.fire('pause.' + persist)
-            if persist == 'pickle':
-                wn = pickle.loads(pickle.dumps(wn))
-            elif persist == 'deepcopy':
-                wn = copy.deepcopy(wn)
+            try:
+                if persist == 'pickle':
+                    wn = pickle.loads(pickle.dumps(wn))
+                elif persist == 'deepcopy':
+                    wn = copy.deepcopy(wn)
+            except Exception as e:  # noqa  - a paused model that cannot be persisted: the history ends here, the caller judges it
+                out.exc = e
+                out.exc_tb = 'persisting (%s) the model paused at %r: ' % (persist, stop) + ''.join(traceback.format_exception(type(e), e, e.__traceback__))[-2500:]
+                out.exc_site = 'persist.' + persist
+                break
             rec.min_time = float(stop)      # the continued run must only solve times after the pause
             # a failed part stops the history
             if res.error_code is not None:
